@@ -208,7 +208,9 @@ def _worker(prop, tier, seed, shard, nshards, scale, outdir):
     try:
         os.chdir(work)
         import logging
+        import warnings
         logging.disable(logging.CRITICAL)       # propka logs through logging; individual checks re-enable capture
+        warnings.filterwarnings("ignore", message="Generating overly large repr")
         ctx = Ctx(prop, tier, seed, shard, nshards, scale)
         mod = importlib.import_module("props." + prop.lower())
         mod.run_shard(ctx)
